@@ -331,6 +331,168 @@ def nonincreasing(alphabet, length):
     return [list(c) for c in itertools.combinations_with_replacement(vals, length)]
 
 
+# ==== BEGIN Layer-W tie of the tree-level routines (model: coq/theories/TTN/TruncTree.v) ==========
+# For a tree case the same tree is built a second time through wmodel.Driver (so every tensor is a
+# recorded atom), optionally canonicalised, and the routine is run with recorders installed:
+#   * every kernel factor entering the network (QR factors, truncated-SVD factors, the projector
+#     pair handed to split_node_replace, the identity of insert_identity) becomes an atom, in call
+#     order = the model's fresh_atom order;
+#   * the number of singular values kept at every truncated bond is read from the recorded
+#     truncate_singular_values calls and handed to the model (`kd`, keyed by the child of the bond).
+# The model program (recursive_truncation / svd_truncation of TruncTree.v) is evaluated by vm_compute
+# on the same build sequence; node dict order, parents, children order, leg permutations, recorded
+# shapes, tensor dict order, root, raw shapes and the recorded centre must agree EXACTLY, and every
+# raw tensor must equal its model diagram evaluated on the recorded atoms.
+W_IMPORTS = ("From Coq Require Import List Arith Bool. From PTN Require Import TTN.Store TTN.Canon TTN.TruncTree "
+             "TTN.Inv TTN.InvRun. Import ListNotations.")
+W_TMP = "(fun j c n => 2000 + 3 * (16 * c + n) + j)"
+
+
+def wtie_impl(case, p):
+    import wmodel
+    from props.c02 import gen_build_on
+    import pytreenet.core.ttn as ttn_mod
+    from pytreenet.util import tensor_splitting as ts
+    import pytreenet.core.truncation.recursive_truncation as rt_mod
+    import pytreenet.core.truncation.svd_truncation as st_mod
+    rng = random.Random(case["seed"] * 7919 + 13)
+    par = case["parents"]
+    n = len(par)
+    open_dims = [[rng.choice([2, 3])] for _ in range(n)]
+    bond = {i: (case["bond"] if case["bond"] is not None else rng.choice([1, 2, 3])) for i in range(1, n)}
+    ops = gen_build_on(rng, par, open_dims, bond)
+    drv = wmodel.Driver(ttn_cls=util.TTNS, nprs=np.random.RandomState(case["seed"] % (2 ** 31)), complex_=case["complex"],
+                        lowrank=0.5 if case["lowrank"] else 0.0)
+    # what happens before the routine: svd_truncation needs a centre (a few cases go without: it must
+    # raise, the model must reject); recursive_truncation canonicalises itself unless the root is
+    # the recorded centre (all three situations are generated)
+    r = rng.random()
+    pre = []
+    if case["algo"] == "svd":
+        if r < 0.9 or n == 1:
+            pre = [["canon", f"n{case['centre']}", "reduced"]]
+    else:
+        if r < 0.3:
+            pre = [["canon", "n0", "reduced"]]
+        elif r < 0.6:
+            pre = [["canon", f"n{case['centre']}", "reduced"]]
+    ops = ops + pre
+    for op in ops:
+        ok, err = drv.apply(op)
+        if not ok:
+            return {"exception": f"harness(wtie): build op {op} rejected: {err}"}
+    t = drv.ttn
+    w = {"algo": case["algo"], "ops": ops, "pre_snap": wmodel.snapshot(t), "pre_centre": t.orthogonality_center_id}
+    kept, visits = [], []
+    names = ["tensor_qr_decomposition", "contr_truncated_svd_splitting", "idiots_splitting"]
+    orig = {nm: getattr(ttn_mod, nm) for nm in names}
+    orig_ii = ttn_mod.TreeTensorNetwork.insert_identity
+    orig_tsv = ts.truncate_singular_values
+    orig_gp, orig_cs = rt_mod.get_truncation_projector, st_mod.contract_and_split_with_parent
+
+    def wrap(f):
+        def g(*a, **kw):
+            q, rr = f(*a, **kw)
+            drv.atoms.append(np.array(q))
+            drv.atoms.append(np.array(rr))
+            return q, rr
+        return g
+
+    def ii(self, child_id, parent_id, new_identifier=None):
+        before = set(self._tensors.data.keys())
+        orig_ii(self, child_id, parent_id, new_identifier=new_identifier)
+        new = [k for k in self._tensors.data.keys() if k not in before]
+        assert len(new) == 1
+        drv.atoms.append(np.array(wmodel.raw_tensor(self, new[0])))
+
+    def tsv(s, params):
+        res = orig_tsv(s, params)
+        kept.append(int(len(res[0])))
+        return res
+
+    def gp(node, node_tensor, child_id, svd_parameters):
+        visits.append(child_id)
+        return orig_gp(node, node_tensor, child_id, svd_parameters)
+
+    def cs(node_id, tree, params):
+        visits.append(node_id)
+        return orig_cs(node_id, tree, params)
+    for nm in names:
+        setattr(ttn_mod, nm, wrap(orig[nm]))
+    ttn_mod.TreeTensorNetwork.insert_identity = ii
+    ts.truncate_singular_values = tsv
+    rt_mod.get_truncation_projector, st_mod.contract_and_split_with_parent = gp, cs
+    natoms = len(drv.atoms)
+    backup = copy.deepcopy(t)
+    try:
+        with warnings.catch_warnings():
+            warnings.simplefilter("ignore")
+            with np.errstate(all="ignore"):
+                (rt_mod.recursive_truncation if case["algo"] == "rec" else st_mod.svd_truncation)(t, p)
+        w["ok"], w["err"] = True, None
+    except Exception as e:  # noqa
+        w["ok"], w["err"] = False, f"{type(e).__name__}: {e}"
+        drv.ttn = t = backup
+        del drv.atoms[natoms:]
+    finally:
+        for nm in names:
+            setattr(ttn_mod, nm, orig[nm])
+        ttn_mod.TreeTensorNetwork.insert_identity = orig_ii
+        ts.truncate_singular_values = orig_tsv
+        rt_mod.get_truncation_projector, st_mod.contract_and_split_with_parent = orig_gp, orig_cs
+    w["post_snap"] = wmodel.snapshot(t)
+    w["post_centre"] = t.orthogonality_center_id
+    w["raws"] = {k: np.array(v) for k, v in t._tensors.data.items()}
+    w["atoms"] = drv.atoms
+    w["visits"], w["kept"] = visits, kept
+    return w
+
+
+def wtie_exprs(w, n):
+    """(Coq expression of the model run, Coq expression of the instance hypotheses, IdMap)"""
+    import wmodel
+    idm = wmodel.IdMap()
+    body = coq_list([("(" + wmodel.coq_cop(o, idm) + ")") for o in w["ops"]])
+    rid = 1000 + n
+    if w["ok"] and len(w["visits"]) == len(w["kept"]):
+        kd = list(zip(w["visits"], w["kept"]))
+    else:
+        # the routine raised: whatever was recorded up to there, padded with 1 (the model must reject
+        # for a reason that does not depend on the dimensions)
+        kd = [(v, (w["kept"][j] if j < len(w["kept"]) else 1)) for j, v in enumerate(w["visits"])]
+    kdl = coq_list([f"({coq_nat(idm(c))}, {coq_nat(k)})" for c, k in kd])
+    algo = "true" if w["algo"] == "rec" else "false"
+    run = (f"let cs := crun {coq_nat(rid)} (empty_store, None) {body} in "
+           f"[cobs true cs; trunc_obs {algo} {W_TMP} {kdl} {coq_nat(rid)} cs]")
+    return run, idm
+
+
+def wtie_compare(w, mo, idm):
+    import wmodel
+    (ok0, o0, c0), (ok1, o1, c1) = mo
+    m0, m1 = wmodel.model_obs_to_py(o0, idm), wmodel.model_obs_to_py(o1, idm)
+    d = wmodel.compare_snapshot(w["pre_snap"], m0)
+    if d:
+        return f"before the routine: {d}"
+    if (w["pre_centre"] or None) != (idm.r[c0[0]] if c0 else None):
+        return f"before the routine: centre impl {w['pre_centre']} model {c0}"
+    if w["ok"] != ok1:
+        return (f"{w['algo']}: implementation {'finished' if w['ok'] else 'raised ' + str(w['err'])} but the model "
+                f"{'finished' if ok1 else 'rejects'} (kept dimensions {list(zip(w['visits'], w['kept']))})")
+    d = wmodel.compare_snapshot(w["post_snap"], m1)
+    if d:
+        return f"after {w['algo']}: {d} (kept dimensions {list(zip(w['visits'], w['kept']))})"
+    if (w["post_centre"] or None) != (idm.r[c1[0]] if c1 else None):
+        return f"after {w['algo']}: recorded centre impl {w['post_centre']} model {[idm.r[c] for c in c1]}"
+    for kk, raw in w["raws"].items():
+        val = wmodel.eval_diagram(m1["tensors"][kk], m1["atab"], w["atoms"])
+        tol = 1e-8 * max(1.0, float(np.max(np.abs(raw))) if raw.size else 1.0)
+        if val.shape != raw.shape or not np.allclose(val, raw, rtol=1e-8, atol=tol):
+            return f"after {w['algo']}: tensor {kk} differs from the model diagram evaluated on the recorded atoms"
+    return None
+# ==== END Layer-W tie ================================================================================
+
+
 class C10(Prop):
     id = "C10"
     title = "truncation rule and tree-level truncation"
@@ -409,6 +571,7 @@ class C10(Prop):
         cases = []
         self.dropped = Counter()
         self.boundary_dev = Counter()
+        self.wtie_stats = getattr(self, "wtie_stats", Counter())
         F = Fraction
         if stream == "main":
             if ctx.thorough():
@@ -513,6 +676,10 @@ class C10(Prop):
                           "bond": rng.choice([None, None, 1, 2, 3, 4]), "scale": rng.choice([1.0, 1.0, 0.05, 0.3, 4.0]),
                           "centre": rng.randrange(n), "lowrank": rng.random() < 0.2, "complex": rng.random() < 0.7,
                           "renorm": rng.random() < 0.25, "sum_renorm": rng.random() < 0.5, **prm})
+        # Layer-W tie (TTN/TruncTree.v): every tree case is also run step-tied on a Driver-built network
+        for c in cases:
+            if c["kind"] == "tree":
+                c["wtie"] = True
         return cases
 
     def nontrivial(self, case):
@@ -554,6 +721,8 @@ class C10(Prop):
             c["float-unsafe case outcome:" + why] += k
         for k, v in getattr(self, "tree_stats", {}).items():
             c["tree-observed:" + k] += v
+        for k, v in getattr(self, "wtie_stats", {}).items():
+            c["tree-layer-W:" + k] += v
         return dict(c)
 
     def sample_repr(self, case):
@@ -743,6 +912,14 @@ class C10(Prop):
             rt_mod.get_truncation_projector, st_mod.contract_and_split_with_parent = orig_gp, orig_cs
         ob["calls"] = calls
         ob["visits"] = visits
+        # ---- BEGIN Layer-W tie (TTN/TruncTree.v) -------------------------------------------------
+        if case.get("wtie"):
+            try:
+                ob["w"] = wtie_impl(case, p)
+            except Exception as e:  # noqa
+                import traceback
+                ob["w"] = {"exception": f"harness(wtie): {type(e).__name__}: {e}", "tb": traceback.format_exc()[-1500:]}
+        # ---- END Layer-W tie ---------------------------------------------------------------------
         return ob
 
     def impl(self, ctx, cases):
@@ -842,6 +1019,24 @@ class C10(Prop):
             else:
                 i, rows = own
                 out[i] = v if isinstance(v, BaseException) else {"rows": rows, "klen": v}
+        # ---- BEGIN Layer-W tie (TTN/TruncTree.v) -------------------------------------------------
+        from lib import coq_eval
+        wi, wexprs, widm = [], [], {}
+        for i, (c, ob) in enumerate(zip(cases, obs)):
+            if c["kind"] == "tree" and isinstance(ob, dict) and isinstance(ob.get("w"), dict):
+                if out[i] is None:
+                    out[i] = {"rows": [], "klen": []}
+                if "exception" in ob["w"] or isinstance(out[i], BaseException):
+                    continue
+                run, idm = wtie_exprs(ob["w"], len(c["parents"]))
+                wi.append(i)
+                wexprs.append(run)
+                widm[i] = idm
+        wv = coq_eval(ctx, W_IMPORTS, wexprs, shard=ctx.scale(8, 20), scope="nat_scope", timeout=600)
+        for i, v in zip(wi, wv):
+            out[i]["w"] = v
+            out[i]["widm"] = widm[i]
+        # ---- END Layer-W tie ---------------------------------------------------------------------
         return out
 
     @staticmethod
@@ -872,6 +1067,18 @@ class C10(Prop):
                 if (len(new), len(trunc)) != tuple(kl):
                     return (f"recorded call {j}: implementation keeps {len(new)} / discards {len(trunc)} of {s}, "
                             f"model {tuple(kl)}")
+            # ---- BEGIN Layer-W tie (TTN/TruncTree.v) ---------------------------------------------
+            if isinstance(ob.get("w"), dict):
+                if "exception" in ob["w"]:
+                    return ob["w"]["exception"]
+                mw = mo.get("w")
+                if mw is None or isinstance(mw, BaseException):
+                    return f"Layer-W model evaluation failed: {mw}"
+                d = wtie_compare(ob["w"], mw, mo["widm"])
+                if d:
+                    return d
+                self.wtie_stats["tied:" + ob["w"]["algo"] + (":raised" if not ob["w"]["ok"] else "")] += 1
+            # ---- END Layer-W tie -----------------------------------------------------------------
             return None
         verdict, r = mo["r"]
         mv = self._verdict_model(verdict)
